@@ -27,6 +27,8 @@ unchanged.  This module folds such edits back, on the syntax tree, so that the r
   * or-default       `if a: x = a else: x = b` -> `x = a or b` (a pure).
   * unnested-else    `if a: EXIT else: REST` -> `if a: EXIT` + REST.
   * split-exit       `return A if c else B` -> `if c: return A` + `return B`; `if a or b: EXIT` -> `if a: EXIT` + `if b: EXIT`.
+  * idiom            `next(iter(x))` -> `list(x)[0]`; `itemgetter(k)` / `attrgetter('a')` -> the lambda; `dict.fromkeys`.
+  * folded-closure   a function defined and only called inside a method is folded back at its calls.
   * renamed-symbol   a method / module function of the reference decomposition that is missing while an unknown one in
                      the same class / module has the same body digest gets its name back (parameters likewise).
   * renamed-local    a local defined exactly like a local of the pinned tree that is now missing gets its name back.
@@ -91,6 +93,23 @@ def simple_const(v):
         return isinstance(e, ast.Name) and e.id[:1].isupper()
     if isinstance(v, (ast.List, ast.Tuple, ast.Set)):
         return all(simple_const(x) for x in v.elts)
+    return False
+
+
+def constant_expr(v):
+    """a value that is the same whenever it is evaluated: literals, enum members, UPPER_CASE module constants, and
+    list()/tuple()/set()/frozenset() or `+` of those."""
+    if simple_const(v):
+        return True
+    if isinstance(v, ast.Name):
+        return v.id.isupper()
+    if isinstance(v, (ast.List, ast.Tuple, ast.Set)):
+        return all(constant_expr(x) for x in v.elts)
+    if isinstance(v, ast.BinOp) and isinstance(v.op, ast.Add):
+        return constant_expr(v.left) and constant_expr(v.right)
+    if isinstance(v, ast.Call) and isinstance(v.func, ast.Name) and v.func.id in ('list', 'tuple', 'set', 'frozenset') \
+            and len(v.args) == 1 and not v.keywords:
+        return constant_expr(v.args[0])
     return False
 
 
@@ -392,6 +411,46 @@ def signatures(fn):
 
 # ------------------------------------------------------------------------------------------------ the pass
 class Canonicaliser:
+    @staticmethod
+    def cattr_signatures(P):
+        """{Class.attr: 'annotation|value'} of the class-level attributes."""
+        out = {}
+        for c in P.classes.values():
+            for k, (ann, v) in c.cattrs.items():
+                out[c.name + '.' + k] = '%s|%s' % (ast.unparse(ann) if ann is not None else '', ast.unparse(v) if v is not None else '')
+        return out
+
+    def renamed_attributes(self):
+        """a private class-level attribute of the reference that is missing while an unknown one of the same class has
+        the same annotation and initial value: a rename; every `.new` in the package becomes `.old` again."""
+        P = self.P
+        pinned_c = json.loads(PINNED_FILE.read_text()).get('cattrs', {}) if not hasattr(self, '_pc') else self._pc
+        cur = self.cattr_signatures(P)
+        changed = False
+        all_attrs = {q.split('.', 1)[1] for q in self.pinned if '.' in q}
+        for q, sig in pinned_c.items():
+            cname, name = q.split('.', 1)
+            if q in cur or not name.startswith('_') or name.startswith('__') or cname not in P.classes:
+                continue
+            if P.member(P.classes[cname], name):
+                continue
+            cands = [k for k, sg in cur.items() if k.startswith(cname + '.') and k not in self.pinned and sg == sig
+                     and k.split('.', 1)[1].startswith('_')]
+            if len(cands) != 1:
+                continue
+            new = cands[0].split('.', 1)[1]
+            if new in all_attrs:
+                continue
+            for m in P.mods.values():
+                for n in ast.walk(m.tree):
+                    if isinstance(n, ast.Attribute) and n.attr == new:
+                        n.attr = name
+                    elif isinstance(n, ast.Name) and n.id == new:
+                        n.id = name
+            self.log.append(('renamed-symbol', cands[0], '%s -> %s' % (cands[0], q)))
+            changed = True
+        return changed
+
     def __init__(self, P, pinned=None, pinned_locals=None, pinned_bodies=None):
         self.P = P
         self.pinned = load_pinned() if pinned is None else pinned
@@ -403,6 +462,16 @@ class Canonicaliser:
         self.pinned_bodies = pinned_bodies       # qual -> [body digest, [positional parameter names]]
         self.log = []          # (kind, where, what) for the evidence file
         self.inlined = set()   # helper units folded at least once
+        # a module function of the reference that now lives, unchanged and under the same name, in another module of
+        # the package is a moved function, not a new helper
+        have = {m.short + ':' + k for m in P.mods.values() for k in m.funcs}
+        for q, (h, params) in self.pinned_bodies.items():
+            if ':' in q and q not in have:
+                nm = q.split(':')[1]
+                for m in P.mods.values():
+                    if nm in m.funcs and m.short + ':' + nm not in self.pinned and body_hash(m.funcs[nm].node) == h:
+                        self.pinned = set(self.pinned) | {m.short + ':' + nm}
+                        self.log.append(('moved-function', m.funcs[nm].loc(), '%s -> %s:%s' % (q, m.short, nm)))
         self.new_callables = {}    # simple name -> [(owner Cls|None, Mod, Unit)]
         for m in P.mods.values():
             for c in m.classes.values():
@@ -502,7 +571,7 @@ class Canonicaliser:
         decs = [ast.unparse(d) for d in fn.decorator_list]
         params = fn.args.posonlyargs + fn.args.args
         mapping = {}
-        if helper.cls is not None and 'staticmethod' not in decs:
+        if helper.cls is not None and 'staticmethod' not in decs and helper.kind != 'closure':
             if not params:
                 return None
             first = params[0].arg
@@ -722,7 +791,7 @@ class Canonicaliser:
             if P.is_enum(c):
                 continue
             for k, (ann, v) in c.cattrs.items():
-                if v is None or c.name + '.' + k in self.pinned or k in stored_attrs or not simple_const(v):
+                if v is None or c.name + '.' + k in self.pinned or k in stored_attrs or not constant_expr(v):
                     continue
                 if any(k in o.cattrs or k in o.methods or k in o.props for o in P.all_subs(c) + P.mro(c)[1:]):
                     continue
@@ -734,7 +803,7 @@ class Canonicaliser:
         mod_consts = {}     # (Mod, name) -> value
         for m in P.mods.values():
             for k, v in m.aliases.items():
-                if m.short + ':' + k in self.pinned or not simple_const(v):
+                if m.short + ':' + k in self.pinned or not constant_expr(v) or isinstance(v, ast.Name):
                     continue
                 n_assign = sum(1 for n in ast.walk(m.tree) if isinstance(n, ast.Name) and n.id == k
                                and isinstance(n.ctx, (ast.Store, ast.Del)))
@@ -1010,17 +1079,26 @@ class Canonicaliser:
                                                isinstance(v, (ast.List, ast.Set))):
                 continue
             root = v
-            while isinstance(root, ast.Attribute):
+            while isinstance(root, (ast.Attribute, ast.Subscript)):
                 root = root.value
             if isinstance(root, ast.Name) and root.id != 'self' and (stores.get(root.id, 0) > 1 or
                                                                      root.id in params and root.id in stores):
                 continue
             # the chain, and each of its prefixes, must not be re-bound in the function
             e, bad = v, False
-            while isinstance(e, ast.Attribute):
+            while isinstance(e, (ast.Attribute, ast.Subscript)):
                 if ast.unparse(e) in rebound:
                     bad = True
                 e = e.value
+            if any(isinstance(x, ast.Subscript) for x in ast.walk(v)):
+                # an indexed container may also change through its methods (pop, update, ..) or be a fresh event each
+                # time: only when the container is a parameter that the function never mutates
+                rt = root.id if isinstance(root, ast.Name) else None
+                if rt not in params or any(isinstance(c, ast.Call) and isinstance(c.func, ast.Attribute) and
+                                           isinstance(c.func.value, ast.Name) and c.func.value.id == rt and
+                                           c.func.attr in ('pop', 'update', 'clear', 'setdefault', 'popitem', '__setitem__')
+                                           for c in ast.walk(fn)):
+                    bad = True
             if bad:
                 continue
             alias[t.id] = (v, n)
@@ -1066,9 +1144,12 @@ class Canonicaliser:
 
     @staticmethod
     def _chain(e):
-        if not isinstance(e, ast.Attribute):
+        """a.b.c, or such a chain indexed by constants (`stats['now']`)."""
+        if not isinstance(e, (ast.Attribute, ast.Subscript)):
             return False
-        while isinstance(e, ast.Attribute):
+        while isinstance(e, (ast.Attribute, ast.Subscript)):
+            if isinstance(e, ast.Subscript) and not isinstance(e.slice, ast.Constant):
+                return False
             e = e.value
         return isinstance(e, ast.Name)
 
@@ -1255,6 +1336,8 @@ class Canonicaliser:
     # ---------------------------------------------------------------- driver
     def local_passes(self, u, fn):
         """the rewritings that only look at one function."""
+        self.closures_inline(u, fn)
+        self.idioms(u, fn)
         self.sink_into_branches(u, fn)
         self.bulk_removals(u, fn)
         self.or_defaults(u, fn)
@@ -1288,6 +1371,132 @@ class Canonicaliser:
         for m in P.mods.values():
             ast.fix_missing_locations(m.tree)
         return {name: m.tree for name, m in P.mods.items()}
+
+    # ---------------------------------------------------------------- equivalent idioms
+    def idioms(self, unit, fn):
+        """`next(iter(x))` -> `list(x)[0]`; `itemgetter(k)` -> `lambda x: x[k]`; `attrgetter('a')` -> `lambda x: x.a`;
+        `dict.fromkeys(xs, c)` -> `{x: c for x in xs}` (c a constant)."""
+        me = self
+
+        class T(ast.NodeTransformer):
+            def visit_Call(self, n):
+                self.generic_visit(n)
+                f = n.func
+                nm = f.id if isinstance(f, ast.Name) else (f.attr if isinstance(f, ast.Attribute) else None)
+                if nm == 'next' and isinstance(f, ast.Name) and len(n.args) == 1 and isinstance(n.args[0], ast.Call) and \
+                        isinstance(n.args[0].func, ast.Name) and n.args[0].func.id == 'iter' and len(n.args[0].args) == 1:
+                    new = ast.Subscript(value=ast.Call(func=ast.Name(id='list', ctx=ast.Load()),
+                                                       args=[n.args[0].args[0]], keywords=[]),
+                                        slice=ast.Constant(value=0), ctx=ast.Load())
+                    me.log.append(('idiom', unit.loc(n), '%s: next(iter(..))' % unit.qual))
+                    return ast.fix_missing_locations(ast.copy_location(new, n))
+                if nm in ('itemgetter', 'attrgetter') and len(n.args) == 1 and not n.keywords and \
+                        isinstance(n.args[0], ast.Constant):
+                    k = n.args[0]
+                    if nm == 'itemgetter':
+                        body = ast.Subscript(value=ast.Name(id='x', ctx=ast.Load()), slice=k, ctx=ast.Load())
+                    elif isinstance(k.value, str) and k.value.isidentifier():
+                        body = ast.Attribute(value=ast.Name(id='x', ctx=ast.Load()), attr=k.value, ctx=ast.Load())
+                    else:
+                        return n
+                    new = ast.Lambda(args=ast.arguments(posonlyargs=[], args=[ast.arg(arg='x')], kwonlyargs=[],
+                                                        kw_defaults=[], defaults=[]), body=body)
+                    me.log.append(('idiom', unit.loc(n), '%s: %s' % (unit.qual, nm)))
+                    return ast.fix_missing_locations(ast.copy_location(new, n))
+                if nm == 'fromkeys' and isinstance(f, ast.Attribute) and isinstance(f.value, ast.Name) and \
+                        f.value.id == 'dict' and len(n.args) == 2 and isinstance(n.args[1], ast.Constant) and pure(n.args[0]):
+                    new = ast.DictComp(key=ast.Name(id='k', ctx=ast.Load()), value=n.args[1],
+                                       generators=[ast.comprehension(target=ast.Name(id='k', ctx=ast.Store()),
+                                                                     iter=n.args[0], ifs=[], is_async=0)])
+                    me.log.append(('idiom', unit.loc(n), '%s: dict.fromkeys' % unit.qual))
+                    return ast.fix_missing_locations(ast.copy_location(new, n))
+                return n
+        T().visit(fn)
+
+    # ---------------------------------------------------------------- local closures
+    def closures_inline(self, unit, fn):
+        """a function defined inside the method and only ever called there (a local helper for a repeated expression or
+        statement) is folded back at its calls (statement level, or expression level for a single `return <expr>`)."""
+        from .model import Unit
+        for _ in range(3):
+            defs = [n for n in own_nodes(fn) if isinstance(n, ast.FunctionDef) and not n.decorator_list]
+            done = False
+            for g in defs:
+                refs = [x for x in ast.walk(fn) if isinstance(x, ast.Name) and x.id == g.name]
+                calls = [c for c in ast.walk(fn) if isinstance(c, ast.Call) and isinstance(c.func, ast.Name)
+                         and c.func.id == g.name]
+                inner = [x for x in ast.walk(g) if isinstance(x, ast.Name) and x.id == g.name]
+                if not calls or len(refs) != len(calls) or inner or g.args.vararg or g.args.kwarg or \
+                        any(isinstance(x, (ast.Yield, ast.YieldFrom, ast.Nonlocal, ast.Global)) for x in ast.walk(g)):
+                    continue
+                helper = Unit(unit.mod, None, g, 'closure', parent=unit) if hasattr(unit, 'mod') else None
+                if helper is None:
+                    continue
+                body = strip_doc(g.body)
+                single = len(body) == 1 and isinstance(body[0], ast.Return) and body[0].value is not None
+                me = self
+                folded = [0]
+
+                def do_list(stmts):
+                    out = []
+                    for st in stmts:
+                        if st is g:
+                            out.append(st)
+                            continue
+                        if not isinstance(st, (ast.FunctionDef, ast.AsyncFunctionDef, ast.ClassDef)):
+                            for owner, f in block_lists(st):
+                                setattr(owner, f, do_list(getattr(owner, f)))
+                        mode = target = call = None
+                        if isinstance(st, ast.Expr) and isinstance(st.value, ast.Call):
+                            mode, call = 'expr', st.value
+                        elif isinstance(st, ast.Assign) and len(st.targets) == 1 and isinstance(st.targets[0], ast.Name) \
+                                and isinstance(st.value, ast.Call):
+                            mode, call, target = 'assign', st.value, st.targets[0]
+                        elif isinstance(st, ast.Return) and isinstance(st.value, ast.Call):
+                            mode, call = 'return', st.value
+                        if call is not None and isinstance(call.func, ast.Name) and call.func.id == g.name and not single:
+                            new = me.expand(helper, call, None, mode, target, fn)
+                            if new is not None:
+                                out.extend(new)
+                                folded[0] += 1
+                                continue
+                        out.append(st)
+                    return out
+                fn.body = do_list(fn.body)
+                if single:
+                    class T(ast.NodeTransformer):
+                        def visit_Call(self, n):
+                            self.generic_visit(n)
+                            if isinstance(n.func, ast.Name) and n.func.id == g.name:
+                                b = me.bind(helper, n, None, fn, expr_level=True)
+                                if b is not None and not b[1]:
+                                    new = Subst(b[0], {}).visit(copy.deepcopy(body[0].value))
+                                    for x in ast.walk(new):
+                                        ast.copy_location(x, n)
+                                    folded[0] += 1
+                                    return new
+                            return n
+
+                        def visit_FunctionDef(self, n):
+                            return n if n is g else self.generic_visit(n)
+                    T().visit(fn)
+                left = [x for x in ast.walk(fn) if isinstance(x, ast.Name) and x.id == g.name]
+                if folded[0] and not left:
+                    def drop(stmts):
+                        out = []
+                        for st in stmts:
+                            if st is g:
+                                continue
+                            if not isinstance(st, (ast.FunctionDef, ast.AsyncFunctionDef, ast.ClassDef)):
+                                for owner, f in block_lists(st):
+                                    setattr(owner, f, drop(getattr(owner, f)) or [ast.copy_location(ast.Pass(), st)])
+                            out.append(st)
+                        return out
+                    fn.body = drop(fn.body) or [ast.copy_location(ast.Pass(), fn)]
+                    self.log.append(('folded-closure', unit.loc(g), '%s: %s' % (unit.qual, g.name)))
+                    done = True
+            if not done:
+                break
 
     # ---------------------------------------------------------------- statement hoisted out of an if/elif/else
     def sink_into_branches(self, unit, fn):
@@ -1669,16 +1878,69 @@ class Canonicaliser:
         self.skip_owners = set()
         return ch
 
+    def moved_constants(self):
+        """a class constant of the reference that is now a module-level constant of the same name (anywhere in the
+        package) is put back in its class; the methods of that class read it through the class again."""
+        P = self.P
+        changed = False
+        for q in sorted(self.pinned):
+            if '.' not in q or ':' in q:
+                continue
+            cname, name = q.split('.', 1)
+            c = P.classes.get(cname)
+            if c is None or not name.isupper() or P.member(c, name):
+                continue
+            found = [(m, m.aliases[name]) for m in P.mods.values() if name in m.aliases
+                     and m.short + ':' + name not in self.pinned and constant_expr(m.aliases[name])]
+            if len(found) != 1:
+                continue
+            m, val = found[0]
+            r = P.lookup(c.mod, name)
+            if not (r and r[0] == 'alias' and r[1] is m):
+                continue
+            asg = ast.Assign(targets=[ast.Name(id=name, ctx=ast.Store())], value=copy.deepcopy(val))
+            ast.fix_missing_locations(ast.copy_location(asg, c.node))
+            doc = 1 if c.node.body and isinstance(c.node.body[0], ast.Expr) and isinstance(c.node.body[0].value, ast.Constant) else 0
+            c.node.body.insert(doc, asg)
+            for b in c.node.body:
+                if isinstance(b, (ast.FunctionDef, ast.AsyncFunctionDef)):
+                    class T(ast.NodeTransformer):
+                        def visit_Name(self, n):
+                            if n.id == name and isinstance(n.ctx, ast.Load):
+                                return ast.copy_location(ast.Attribute(value=ast.Name(id=cname, ctx=ast.Load()), attr=name,
+                                                                       ctx=ast.Load()), n)
+                            return n
+                    T().visit(b)
+                    ast.fix_missing_locations(b)
+            self.log.append(('moved-constant', '%s:%d' % (m.relpath, 1), '%s:%s -> %s' % (m.short, name, q)))
+            changed = True
+        return changed
+
     def rename_back_symbols(self):
         P = self.P
         ren = self.renamed_symbols(P, self.pinned, self.pinned_bodies)
         if ren:
             pinned_names = {q.replace(':', '.').split('.')[-1] for q in self.pinned}
+            in_use = set()
+            for m in P.mods.values():
+                for n in ast.walk(m.tree):
+                    if isinstance(n, ast.Attribute):
+                        in_use.add(n.attr)
+                    elif isinstance(n, ast.Name):
+                        in_use.add(n.id)
+                    elif isinstance(n, (ast.FunctionDef, ast.AsyncFunctionDef)):
+                        in_use.add(n.name)
             for new_q, old_q in ren.items():
                 new = new_q.replace(':', '.').split('.')[-1]
                 old = old_q.replace(':', '.').split('.')[-1]
                 if new in pinned_names:
                     continue            # the new name also designates something of the reference tree: not touched
+                # a rename changes every reference: if the old name is still used somewhere (an inherited method of
+                # that name, a caller left behind), the edit is not a rename but a change of what gets called
+                still = old in in_use
+                if still:
+                    self.log.append(('not-a-rename', new_q, '%s looks like %s but `%s` is still in use' % (new_q, old_q, old)))
+                    continue
                 for m in P.mods.values():
                     for n in ast.walk(m.tree):
                         if isinstance(n, ast.Attribute) and n.attr == new:
@@ -1767,7 +2029,7 @@ def canonical_program(root):
     for _ in range(10):
         # (a renamed method that calls another renamed method only matches once the latter has its name back; one
         # that calls a helper extracted from it only matches once that helper is folded back)
-        changed = C.rename_back_symbols()
+        changed = C.rename_back_symbols() | C.moved_constants() | C.renamed_attributes()
         if not changed:
             owners = C.owners_with_missing_functions()
             if not owners:
